@@ -35,8 +35,23 @@ theorem pool_step {s s' : State} (h : SInv s) {i : Nat} {p p' : Pool} (hp : s.po
     (hnf : s.nextFam ≤ s'.nextFam) (hok : PoolOK s'.nextFam p') (hdev : DevStep s.dev s'.dev p p')
     (hrel : SameContents p p' ∧ SameAliasing p p')
     (hpi : s'.pool i = some p') (hpj : ∀ j, j ≠ i → s'.pool j = s.pool j)
-    (hbufs : s'.bufs = s.bufs) (hmems : s'.mems = s.mems) : SInv s' ∧ Preserves s s' :=
-  ⟨sinv_update_pool h hp hnf hok hdev hpi hpj hbufs hmems, preserves_update hp hpi hpj hrel⟩
+    (hbufs : s'.bufs = s.bufs) (hmems : s'.mems = s.mems)
+    (hcross : ∀ m ∈ s.mems, findSlot m.slot p'.resv = none) : SInv s' ∧ Preserves s s' :=
+  ⟨sinv_update_pool h hp hnf hok hdev hpi hpj hbufs hmems hcross, preserves_update hp hpi hpj hrel⟩
+
+/-- the slots of `p'` are slots of `p` or slots no device memory uses: no device memory uses them -/
+theorem cross_of_members {s : State} (h : SInv s) {i : Nat} {p p' : Pool} (hp : s.pool i = some p)
+    (hm : ∀ r' ∈ p'.resv, (∀ m ∈ s.mems, m.slot ≠ r'.slot) ∨ ∃ r ∈ p.resv, r'.slot = r.slot) :
+    ∀ m ∈ s.mems, findSlot m.slot p'.resv = none := by
+  intro m hmm
+  cases hf : findSlot m.slot p'.resv with
+  | none => rfl
+  | some r' =>
+    exfalso
+    have hr' := findSlot_some hf
+    rcases hm r' hr'.1 with e | ⟨r, hr, e⟩
+    · exact e m hmm hr'.2.symm
+    · exact findSlot_none (h.cross m hmm i p hp) r hr (by rw [← e, hr'.2])
 
 /-- the other pools of an updated state (after the index has been made concrete) -/
 macro "other_pools" : tactic =>
@@ -56,14 +71,23 @@ theorem resize_step {c : Cfg} (hc : c.Fixed) {s : State} (h : SInv s) {i n : Nat
     SInv { s.setPool i (some p1) with dev := d } ∧ Preserves s { s.setPool i (some p1) with dev := d } := by
   have hok := h.pools i p hp
   have hdev := resize_dev hok.inv h.dev (h.pool_le hp) hres
-  have hrel : PoolOK s.nextFam p1 ∧ (SameContents p p1 ∧ SameAliasing p p1) := by
+  have hrel : PoolOK s.nextFam p1 ∧ (SameContents p p1 ∧ SameAliasing p p1) ∧
+      (∀ m ∈ s.mems, findSlot m.slot p1.resv = none) := by
     rcases (resize_ok hc hok.inv hres).2 with he | hr
-    · rw [he.2.2.1]; exact ⟨hok, SameContents.refl _, SameAliasing.refl _⟩
+    · rw [he.2.2.1]; exact ⟨hok, ⟨SameContents.refl _, SameAliasing.refl _⟩, fun m hm => h.cross m hm _ p hp⟩
     · have := members_ok hok hr.2.members
-      exact ⟨⟨hr.2.inv, this.1, this.2⟩, hr.2.packed⟩
+      refine ⟨⟨hr.2.inv, this.1, this.2⟩, hr.2.packed, ?_⟩
+      intro m hm
+      cases hf : findSlot m.slot p1.resv with
+      | none => rfl
+      | some r' =>
+        exfalso
+        have hr' := findSlot_some hf
+        obtain ⟨r, hr0, _, hs⟩ := hr.2.members r' hr'.1
+        exact findSlot_none (h.cross m hm _ p hp) r hr0 (by rw [← hs, hr'.2])
   rcases pool_index hp with rfl | rfl
-  · exact pool_step h hp (Nat.le_refl _) hrel.1 hdev hrel.2 rfl (by other_pools) rfl rfl
-  · exact pool_step h hp (Nat.le_refl _) hrel.1 hdev hrel.2 rfl (by other_pools) rfl rfl
+  · exact pool_step h hp (Nat.le_refl _) hrel.1 hdev hrel.2.1 rfl (by other_pools) rfl rfl hrel.2.2
+  · exact pool_step h hp (Nat.le_refl _) hrel.1 hdev hrel.2.1 rfl (by other_pools) rfl rfl hrel.2.2
 
 theorem step_resize {c : Cfg} (hc : c.Fixed) {s : State} (h : SInv s) (i n : Nat) :
     SInv (step c s (.resize i n)).1 ∧ Preserves s (step c s (.resize i n)).1 := by
@@ -114,9 +138,18 @@ theorem step_align {c : Cfg} {s : State} (h : SInv s) (i a : Nat) :
       have hr := (setAlignment_ok hok.inv hres).2
       have hm := members_ok hok hr.members
       have hok1 : PoolOK s.nextFam p1 := ⟨hr.inv, hm.1, hm.2⟩
+      have hcr : ∀ m ∈ s.mems, findSlot m.slot p1.resv = none := by
+        intro m hmm
+        cases hf : findSlot m.slot p1.resv with
+        | none => rfl
+        | some r' =>
+          exfalso
+          have hr' := findSlot_some hf
+          obtain ⟨r, hr0, _, hs⟩ := hr.members r' hr'.1
+          exact findSlot_none (h.cross m hmm _ p hp) r hr0 (by rw [← hs, hr'.2])
       rcases pool_index hp with rfl | rfl
-      · exact pool_step h hp (Nat.le_refl _) hok1 hdev hr.packed rfl (by other_pools) rfl rfl
-      · exact pool_step h hp (Nat.le_refl _) hok1 hdev hr.packed rfl (by other_pools) rfl rfl
+      · exact pool_step h hp (Nat.le_refl _) hok1 hdev hr.packed rfl (by other_pools) rfl rfl hcr
+      · exact pool_step h hp (Nat.le_refl _) hok1 hdev hr.packed rfl (by other_pools) rfl rfl hcr
 
 /-! ### reserve -/
 
@@ -175,24 +208,32 @@ theorem step_reserve {c : Cfg} (hc : c.Fixed) {s : State} (h : SInv s) (i k n : 
           (hrsv.inv.famDisj r hrmem x' hx'mem hne)
         simpa using this
       · exact hrsv.aliasing
+    have hcr : ∀ m ∈ s.mems, findSlot m.slot (p1.write r.off (pattern (1000 + s.nextFam) n)).resv = none :=
+      cross_of_members h hp (fun r' hr' => by
+        rcases hrsv.members r' hr' with hnew | ⟨y, hy, _, hs⟩
+        · exact Or.inl (fun m hm => by rw [hnew.1]; exact findMem_none (slotLive_false hlive).2 m hm)
+        · exact Or.inr ⟨y, hy, hs⟩)
     rcases pool_index hp with rfl | rfl
-    · exact pool_step h hp (Nat.le_succ _) hok2 hdev2 hrel rfl (by other_pools) rfl rfl
-    · exact pool_step h hp (Nat.le_succ _) hok2 hdev2 hrel rfl (by other_pools) rfl rfl
+    · exact pool_step h hp (Nat.le_succ _) hok2 hdev2 hrel rfl (by other_pools) rfl rfl hcr
+    · exact pool_step h hp (Nat.le_succ _) hok2 hdev2 hrel rfl (by other_pools) rfl rfl hcr
 
 /-! ### where a slot lives -/
 
 theorem locate_cases (s : State) (k : Nat) :
     (∃ i p r, s.locate k = some (.inPool i p r) ∧ s.pool i = some p ∧ findSlot k p.resv = some r) ∨
-    (∃ m, s.locate k = some (.inDev m) ∧ findMem k s.mems = some m) ∨ s.locate k = none := by
+    (∃ m, s.locate k = some (.inDev m) ∧ findMem k s.mems = some m) ∨
+    (s.locate k = none ∧ findMem k s.mems = none) := by
   have dev : (locateIn 0 s.pool0 k = none) → (locateIn 1 s.pool1 k = none) →
-      (∃ m, s.locate k = some (.inDev m) ∧ findMem k s.mems = some m) ∨ s.locate k = none := by
+      (∃ m, s.locate k = some (.inDev m) ∧ findMem k s.mems = some m) ∨
+      (s.locate k = none ∧ findMem k s.mems = none) := by
     intro e0 e1
     cases hm : findMem k s.mems with
     | some m => exact Or.inl ⟨m, by simp only [State.locate, e0, e1, hm], rfl⟩
-    | none => exact Or.inr (by simp only [State.locate, e0, e1, hm])
+    | none => exact Or.inr ⟨by simp only [State.locate, e0, e1, hm], rfl⟩
   have p1 : (locateIn 0 s.pool0 k = none) →
       (∃ i p r, s.locate k = some (.inPool i p r) ∧ s.pool i = some p ∧ findSlot k p.resv = some r) ∨
-      (∃ m, s.locate k = some (.inDev m) ∧ findMem k s.mems = some m) ∨ s.locate k = none := by
+      (∃ m, s.locate k = some (.inDev m) ∧ findMem k s.mems = some m) ∨
+      (s.locate k = none ∧ findMem k s.mems = none) := by
     intro e0
     cases h1 : s.pool1 with
     | some q =>
@@ -291,7 +332,8 @@ theorem release_inv {c : Cfg} (hc : c.Fixed) {s : State} (h : SInv s) (k : Nat) 
         SInv s' ∧ ReleaseRel k s s' := by
       intro s' hpi hpj hnf hd hb hmm
       refine ⟨sinv_update_pool h hp (Nat.le_of_eq hnf.symm) (by rw [hnf]; exact hok1)
-        (by rw [hd]; exact devStep_same h.dev hsz) hpi hpj hb hmm, ?_⟩
+        (by rw [hd]; exact devStep_same h.dev hsz) hpi hpj hb hmm
+        (cross_of_members h hp (fun x hx => Or.inr ⟨x, hmem x hx, rfl⟩)), ?_⟩
       intro j q q' h1 h2
       by_cases hji : j = i
       · subst hji; rw [hp] at h1; rw [hpi] at h2; cases h1; cases h2; exact hrel
@@ -305,6 +347,8 @@ theorem release_inv {c : Cfg} (hc : c.Fixed) {s : State} (h : SInv s) (k : Nat) 
     have hsub := eraseMem_sublist k s.mems
     have hslots' : ((eraseMem k s.mems).map (·.slot)).Nodup := h.memSlots.sublist (hsub.map _)
     have hbelow' : ∀ x ∈ eraseMem k s.mems, x.slot < NSLOT := fun x hx => h.memBelow x (mem_eraseMem hx)
+    have hcross' : ∀ x ∈ eraseMem k s.mems, ∀ i p, s.pool i = some p → findSlot x.slot p.resv = none :=
+      fun x hx => h.cross x (mem_eraseMem hx)
     unfold State.release
     rw [hloc]
     simp only []
@@ -312,7 +356,7 @@ theorem release_inv {c : Cfg} (hc : c.Fixed) {s : State} (h : SInv s) (k : Nat) 
     · -- other memories still use the buffer
       rename_i hany
       refine ⟨sinv_update_dev h (Nat.le_refl _) (fun j => by rcases j with _ | _ | j <;> rfl) h.dev rfl h.bufIds h.bufBelow
-        ?_ hslots' hbelow', releaseRel_of_pools_eq (fun j => by rcases j with _ | _ | j <;> rfl)⟩
+        ?_ hslots' hbelow' hcross', releaseRel_of_pools_eq (fun j => by rcases j with _ | _ | j <;> rfl)⟩
       intro b hb
       obtain ⟨x, hx, hxb⟩ := h.bufLive b hb
       rcases List.mem_cons.1 (hperm.mem_iff.1 hx) with rfl | hx'
@@ -327,7 +371,7 @@ theorem release_inv {c : Cfg} (hc : c.Fixed) {s : State} (h : SInv s) (k : Nat) 
       | none =>
         simp only []
         refine ⟨sinv_update_dev h (Nat.le_refl _) (fun j => by rcases j with _ | _ | j <;> rfl) h.dev rfl h.bufIds h.bufBelow
-          ?_ hslots' hbelow', releaseRel_of_pools_eq (fun j => by rcases j with _ | _ | j <;> rfl)⟩
+          ?_ hslots' hbelow' hcross', releaseRel_of_pools_eq (fun j => by rcases j with _ | _ | j <;> rfl)⟩
         intro b hb
         obtain ⟨x, hx, hxb⟩ := h.bufLive b hb
         rcases List.mem_cons.1 (hperm.mem_iff.1 hx) with rfl | hx'
@@ -350,7 +394,7 @@ theorem release_inv {c : Cfg} (hc : c.Fixed) {s : State} (h : SInv s) (k : Nat) 
           intro y hy e
           exact hn.1 (List.mem_map.2 ⟨y, hy, by rw [e, hb.2]⟩)
         refine ⟨sinv_update_dev h (Nat.le_refl _) (fun j => by rcases j with _ | _ | j <;> rfl) ?_ ?_ hids'
-          (fun y hy => h.bufBelow y (hbsub.subset hy)) ?_ hslots' hbelow',
+          (fun y hy => h.bufBelow y (hbsub.subset hy)) ?_ hslots' hbelow' hcross',
           releaseRel_of_pools_eq (fun j => by rcases j with _ | _ | j <;> rfl)⟩
         · show DevOK (if b.counted then s.dev.sub b.size else s.dev)
           split
@@ -370,7 +414,7 @@ theorem release_inv {c : Cfg} (hc : c.Fixed) {s : State} (h : SInv s) (k : Nat) 
           rcases List.mem_cons.1 (hperm.mem_iff.1 hx) with rfl | hx'
           · exact absurd hxb.symm (hnotin y hy)
           · exact ⟨x, hx', hxb⟩
-  · have : s.release c k = s := by unfold State.release; rw [hloc]
+  · have : s.release c k = s := by unfold State.release; rw [hloc.1]
     rw [this]; exact ⟨h, ReleaseRel.refl k s⟩
 
 theorem step_release {c : Cfg} (hc : c.Fixed) {s : State} (h : SInv s) (k : Nat) :
@@ -430,9 +474,14 @@ theorem pool_slice_step {c : Cfg} (hc : c.Fixed) {s : State} (h : SInv s) {i k o
       · rw [e]; exact hk
       · exact hok.slots x hx
   refine ⟨by unfold Pool.slice; rw [if_neg (by simp [hbuf])], ?_⟩
+  have hcr : ∀ m ∈ s.mems, findSlot m.slot (p.addRef c ⟨k, r.off + off, bytes, r.fam⟩).resv = none :=
+    cross_of_members h hp (fun x hx => by
+      rcases (mem_insertResv _ x _).1 hx with e | hx
+      · exact Or.inl (fun m hm => by rw [e]; exact findMem_none (slotLive_false hlive).2 m hm)
+      · exact Or.inr ⟨x, hx, rfl⟩)
   rcases pool_index hp with rfl | rfl
-  · exact pool_step h hp (Nat.le_refl _) hok1 (devStep_same h.dev rfl) hsame rfl (by other_pools) rfl rfl
-  · exact pool_step h hp (Nat.le_refl _) hok1 (devStep_same h.dev rfl) hsame rfl (by other_pools) rfl rfl
+  · exact pool_step h hp (Nat.le_refl _) hok1 (devStep_same h.dev rfl) hsame rfl (by other_pools) rfl rfl hcr
+  · exact pool_step h hp (Nat.le_refl _) hok1 (devStep_same h.dev rfl) hsame rfl (by other_pools) rfl rfl hcr
 
 theorem pool_write_step {s : State} (h : SInv s) {i off : Nat} {data : List Byte} {p : Pool} {r : Resv}
     (hp : s.pool i = some p) (hr : r ∈ p.resv) (hfit : off + data.length ≤ r.size) :
@@ -441,9 +490,11 @@ theorem pool_write_step {s : State} (h : SInv s) {i off : Nat} {data : List Byte
   have hrb := hok.inv.inBounds hr
   have hinv := write_inv hok.inv (r.off + off) data (by omega)
   have hok1 : PoolOK s.nextFam (p.write (r.off + off) data) := ⟨hinv, hok.fams, hok.slots⟩
+  have hcr : ∀ m ∈ s.mems, findSlot m.slot (p.write (r.off + off) data).resv = none :=
+    fun m hm => h.cross m hm _ p hp
   rcases pool_index hp with rfl | rfl
-  · exact sinv_update_pool h hp (Nat.le_refl _) hok1 (devStep_same h.dev rfl) rfl (by other_pools) rfl rfl
-  · exact sinv_update_pool h hp (Nat.le_refl _) hok1 (devStep_same h.dev rfl) rfl (by other_pools) rfl rfl
+  · exact sinv_update_pool h hp (Nat.le_refl _) hok1 (devStep_same h.dev rfl) rfl (by other_pools) rfl rfl hcr
+  · exact sinv_update_pool h hp (Nat.le_refl _) hok1 (devStep_same h.dev rfl) rfl (by other_pools) rfl rfl hcr
 
 /-! ### device memory -/
 
@@ -464,10 +515,16 @@ theorem mem_setBufData_id {i : Nat} {f : List Byte → List Byte} {l : List DBuf
   obtain ⟨b0, hb0, he⟩ := List.mem_map.1 hm
   exact ⟨b0, hb0, he⟩
 
-theorem newBuf_inv {s : State} (h : SInv s) {k : Nat} (hk : k < NSLOT) (hfree : findMem k s.mems = none)
+theorem newBuf_inv {s : State} (h : SInv s) {k : Nat} (hk : k < NSLOT) (hlive : s.slotLive k = false)
     (n : Nat) (counted : Bool) (data : List Byte) : SInv (s.newBuf k n counted data) := by
+  have hfree := (slotLive_false hlive).2
   unfold State.newBuf
-  refine sinv_update_dev h (Nat.le_succ _) (fun j => by rcases j with _ | _ | j <;> rfl) ?_ ?_ ?_ ?_ ?_ ?_ ?_
+  refine sinv_update_dev h (Nat.le_succ _) (fun j => by rcases j with _ | _ | j <;> rfl) ?_ ?_ ?_ ?_ ?_ ?_ ?_ ?_
+  rotate_left 7
+  · intro m hm i p hp
+    rcases List.mem_append.1 hm with hm | hm
+    · exact h.cross m hm i p hp
+    · simp at hm; rw [hm]; exact (slotLive_false hlive).1 i p hp
   · show DevOK (if counted = true then s.dev.add n else s.dev)
     split
     · exact h.dev.add _
@@ -512,10 +569,16 @@ theorem newBuf_pools (s : State) (k n : Nat) (counted : Bool) (data : List Byte)
     (s.newBuf k n counted data).pool j = s.pool j := by
   rcases j with _ | _ | j <;> rfl
 
-theorem dev_slice_inv {s : State} (h : SInv s) {k : Nat} (hk : k < NSLOT) (hfree : findMem k s.mems = none)
+theorem dev_slice_inv {s : State} (h : SInv s) {k : Nat} (hk : k < NSLOT) (hlive : s.slotLive k = false)
     {m : DMem} (hm : m ∈ s.mems) (off bytes : Nat) :
     SInv { s with mems := s.mems ++ [⟨k, m.buf, off, bytes⟩] } := by
-  refine sinv_update_dev h (Nat.le_refl _) (fun j => by rcases j with _ | _ | j <;> rfl) h.dev rfl h.bufIds h.bufBelow ?_ ?_ ?_
+  have hfree := (slotLive_false hlive).2
+  refine sinv_update_dev h (Nat.le_refl _) (fun j => by rcases j with _ | _ | j <;> rfl) h.dev rfl h.bufIds h.bufBelow ?_ ?_ ?_ ?_
+  rotate_left 3
+  · intro x hx i p hp
+    rcases List.mem_append.1 hx with hx | hx
+    · exact h.cross x hx i p hp
+    · simp at hx; rw [hx]; exact (slotLive_false hlive).1 i p hp
   · intro b hb
     obtain ⟨x, hx, e⟩ := h.bufLive b hb
     exact ⟨x, List.mem_append_left _ hx, e⟩
@@ -535,7 +598,7 @@ theorem dev_write_inv {s : State} (h : SInv s) (i : Nat) (f : List Byte → List
     SInv { s with bufs := setBufData i f s.bufs } := by
   have hmap := setBufData_map i f s.bufs
   have hid := setBufData_ids i f s.bufs
-  refine sinv_update_dev h (Nat.le_refl _) (fun j => by rcases j with _ | _ | j <;> rfl) h.dev ?_ ?_ ?_ ?_ h.memSlots h.memBelow
+  refine sinv_update_dev h (Nat.le_refl _) (fun j => by rcases j with _ | _ | j <;> rfl) h.dev ?_ ?_ ?_ ?_ h.memSlots h.memBelow h.cross
   · show s.dev.alloc + countedBytes s.bufs = s.dev.alloc + countedBytes (setBufData i f s.bufs)
     rw [countedBytes_eq_of_map hmap]
   · show ((setBufData i f s.bufs).map (·.id)).Nodup
@@ -556,7 +619,16 @@ theorem add_pool_inv {c : Cfg} (hc : c.Fixed) {s : State} (h : SInv s) {i : Nat}
   have hnew : PoolOK s.nextFam { align := c.defaultAlign } := ⟨pinv_new hc.2.2.2.2.2.2, by simp, by simp⟩
   have hacc := h.account
   rcases i with _ | _ | i
-  · refine ⟨?_, h.dev, ?_, h.bufIds, h.bufBelow, h.bufLive, h.memSlots, h.memBelow⟩
+  · refine ⟨?_, h.dev, ?_, h.bufIds, h.bufBelow, h.bufLive, h.memSlots, h.memBelow, ?_⟩
+    rotate_left 2
+    · intro m hm j q hq
+      rcases j with _ | _ | j
+      · have : q = { align := c.defaultAlign } := by
+          have : (some { align := c.defaultAlign } : Option Pool) = some q := hq
+          cases this; rfl
+        rw [this]; rfl
+      · exact h.cross m hm 1 q hq
+      · cases hq
     · intro j q hq
       rcases j with _ | _ | j
       · have : q = { align := c.defaultAlign } := by
@@ -569,7 +641,16 @@ theorem add_pool_inv {c : Cfg} (hc : c.Fixed) {s : State} (h : SInv s) {i : Nat}
       rw [hn] at hacc
       simp only [poolSize] at hacc ⊢
       omega
-  · refine ⟨?_, h.dev, ?_, h.bufIds, h.bufBelow, h.bufLive, h.memSlots, h.memBelow⟩
+  · refine ⟨?_, h.dev, ?_, h.bufIds, h.bufBelow, h.bufLive, h.memSlots, h.memBelow, ?_⟩
+    rotate_left 2
+    · intro m hm j q hq
+      rcases j with _ | _ | j
+      · exact h.cross m hm 0 q hq
+      · have : q = { align := c.defaultAlign } := by
+          have : (some { align := c.defaultAlign } : Option Pool) = some q := hq
+          cases this; rfl
+        rw [this]; rfl
+      · cases hq
     · intro j q hq
       rcases j with _ | _ | j
       · exact h.pools 0 q hq
@@ -606,7 +687,13 @@ theorem freePool_inv {s : State} (h : SInv s) (i : Nat) : SInv (s.freePool i) :=
           · exact hb'.2
         exact ⟨h.dev, by omega⟩
     rcases pool_index hp with rfl | rfl
-    · refine ⟨?_, hdev.1, ?_, h.bufIds, h.bufBelow, h.bufLive, h.memSlots, h.memBelow⟩
+    · refine ⟨?_, hdev.1, ?_, h.bufIds, h.bufBelow, h.bufLive, h.memSlots, h.memBelow, ?_⟩
+      rotate_left 2
+      · intro m hm j q hq
+        rcases j with _ | _ | j
+        · cases hq
+        · exact h.cross m hm 1 q hq
+        · cases hq
       · intro j q hq
         rcases j with _ | _ | j
         · cases hq
@@ -616,7 +703,13 @@ theorem freePool_inv {s : State} (h : SInv s) (i : Nat) : SInv (s.freePool i) :=
         rw [hp] at hacc
         simp only [poolSize] at hacc ⊢
         omega
-    · refine ⟨?_, hdev.1, ?_, h.bufIds, h.bufBelow, h.bufLive, h.memSlots, h.memBelow⟩
+    · refine ⟨?_, hdev.1, ?_, h.bufIds, h.bufBelow, h.bufLive, h.memSlots, h.memBelow, ?_⟩
+      rotate_left 2
+      · intro m hm j q hq
+        rcases j with _ | _ | j
+        · exact h.cross m hm 0 q hq
+        · cases hq
+        · cases hq
       · intro j q hq
         rcases j with _ | _ | j
         · exact h.pools 0 q hq
